@@ -71,6 +71,14 @@ func fmtInt(v *big.Int, f string) string {
 			d = d[:len(d)-3] + "_" + d[len(d)-3:]
 		}
 		s = d
+	case "fdot": // an integer written in float notation (text that is not an integer literal may be rejected, but never wrapped)
+		s = a.Text(10) + ".0"
+	case "fexp":
+		d := a.Text(10)
+		s = d[:1] + "." + d[1:] + "e" + fmt.Sprint(len(d)-1)
+		if len(d) == 1 {
+			s = d + "e0"
+		}
 	default:
 		s = a.Text(10)
 	}
@@ -143,6 +151,19 @@ func rangeLiteral(c pCase) (string, bool) {
 	return fmtInt(v, c.Fmt), true
 }
 
+// rangeValue: the integer a range case denotes
+func rangeValue(c pCase) *big.Int {
+	min, max := intBounds(c.Kind)
+	base := big.NewInt(0)
+	switch c.B {
+	case "min":
+		base = min
+	case "max":
+		base = max
+	}
+	return new(big.Int).Add(base, big.NewInt(int64(c.Off)))
+}
+
 func pMis(kind, d string) map[string]any { return map[string]any{"kind": kind, "detail": d} }
 
 func sliceParse(kind, s string) (interface{}, error) {
@@ -187,6 +208,10 @@ func runRange(c pCase) (mis []map[string]any) {
 			got = v.Elem().Interface()
 		}
 	}
+	floatNotation := c.Fmt == "fdot" || c.Fmt == "fexp"
+	if floatNotation && c.Accept && err != nil {
+		return nil // not an integer literal: rejecting it is fine
+	}
 	if c.Accept && err != nil {
 		return append(mis, pMis("prop", fmt.Sprintf("%s literal %q (%s) is inside the range of %s but was rejected: %v", c.Ctx, lit, c.Fmt, c.Kind, err)))
 	}
@@ -196,6 +221,9 @@ func runRange(c pCase) (mis []map[string]any) {
 	if c.Accept && !strings.HasPrefix(c.Kind, "float") && !strings.HasPrefix(c.Kind, "complex") {
 		// the value itself
 		want, _ := new(big.Int).SetString(strings.ReplaceAll(strings.TrimSpace(lit), "_", ""), 0)
+		if floatNotation {
+			want, _ = new(big.Int).SetString(strings.TrimSpace(fmtInt(rangeValue(c), "dec")), 10)
+		}
 		gv := reflect.ValueOf(got)
 		if gv.Kind() == reflect.Slice {
 			gv = gv.Index(gv.Len() - 1)
